@@ -74,17 +74,17 @@ def loopKwW {σ} (ps : List (VParamW σ)) (strict : Bool) :
     | Option.none => if kwStrictTest strict k then (.error .tooMany, w) else loopKwW ps strict rest (res.set k v) used w
 
 /-- second loop, the branches `elif k in parameter_dict` / `else` -/
-def loopPosW {σ} (ps : List (VParamW σ)) (strict : Bool) :
+def loopPosW {σ} (ps : List (VParamW σ)) (strict : Bool) (recv : Option Name) :
     List (Name × PV) → Assoc → List Name → List PV → σ → Except VExc (Assoc × List Name × List PV) × σ
   | [], res, used, ua, w => (.ok (res, used, ua), w)
   | (k, v) :: rest, res, used, ua, w =>
     match findPW ps k with
     | some p =>
       match p.validate v w with
-      | (.ok v', w') => loopPosW ps strict rest (res.set k v') (used ++ [p.name]) (ua ++ [v]) w'
+      | (.ok v', w') => loopPosW ps strict recv rest (res.set k v') (used ++ [p.name]) (ua ++ [v]) w'
       | (.error e, w') => (.error e, w')
     | Option.none =>
-      if posStrictTest strict k then (.error .tooMany, w) else loopPosW ps strict rest (res.set k v) used ua w
+      if posStrictTest strict k recv then (.error .tooMany, w) else loopPosW ps strict recv rest (res.set k v) used ua w
 
 /-- second loop, the `zip` branch -/
 def loopZipW {σ} : List (PV × VParamW σ) → Assoc → List Name → σ → Except VExc (Assoc × List Name) × σ
@@ -138,7 +138,7 @@ def runLoopW {σ} (c : CfgW σ) (args : List PV) (kw : List (Name × PV)) (l : L
     match bindPartial c.sig args with
     | .error e => (.error e, w)
     | .ok b =>
-      match loopPosW c.ps c.strict b.named st.1 st.2 [] w with
+      match loopPosW c.ps c.strict c.sig.receiver b.named st.1 st.2 [] w with
       | (.error e, w') => (.error e, w')
       | (.ok (r, u, ua), w') => if b.extras.isEmpty then (.ok (r, u), w') else loopZipW (zipPairsW c.ps args u ua) r u w'
   | .unused =>
